@@ -1,14 +1,69 @@
 package main
 
 import (
+	storetypes "cosmossdk.io/store/types"
+	sdk "github.com/cosmos/cosmos-sdk/types"
+
 	elysapp "github.com/elys-network/elys/app"
 )
 
-// TxHooks wraps the ante and post handler chain of a node (see txhooks.go).
-type TxHooks struct {
-	obs TxObserver
+// TxObserver sees the exact state before and after the messages of one
+// transaction. Both contexts are discarded cache contexts with an infinite gas
+// meter and a private event manager: reading through them perturbs neither
+// state nor gas nor events of the transaction.
+type TxObserver interface {
+	// PreTx: state after the ante handler (fee paid, sequence bumped), before messages.
+	PreTx(ctx sdk.Context, t *ExecTx)
+	// PostTx: state after the messages ran successfully (called only on success).
+	PostTx(ctx sdk.Context, t *ExecTx)
 }
 
-type TxObserver interface{}
+// TxHooks wraps the ante and post handler chain of a node. The wrappers call
+// the real handlers unchanged.
+type TxHooks struct {
+	sim       *Sim
+	blk       *ExecBlock
+	idx       int // index of the tx currently in flight
+	Observers []TxObserver
+}
 
-func (h *TxHooks) install(app *elysapp.ElysApp) {}
+func (h *TxHooks) beginBlock(eb *ExecBlock) { h.blk = eb; h.idx = -1 }
+
+func obsCtx(ctx sdk.Context) sdk.Context {
+	c := ctx.WithGasMeter(storetypes.NewInfiniteGasMeter()).WithBlockGasMeter(storetypes.NewInfiniteGasMeter()).WithEventManager(sdk.NewEventManager())
+	cc, _ := c.CacheContext()
+	return cc
+}
+
+func (h *TxHooks) install(app *elysapp.ElysApp) {
+	ante := app.AnteHandler()
+	app.SetAnteHandler(func(ctx sdk.Context, tx sdk.Tx, simulate bool) (sdk.Context, error) {
+		h.idx++
+		newCtx, err := ante(ctx, tx, simulate)
+		if err == nil && h.blk != nil && h.idx < len(h.blk.Txs) {
+			t := h.blk.Txs[h.idx]
+			for _, o := range h.Observers {
+				h.safe(func() { o.PreTx(obsCtx(newCtx), t) })
+			}
+		}
+		return newCtx, err
+	})
+	app.SetPostHandler(func(ctx sdk.Context, tx sdk.Tx, simulate, success bool) (sdk.Context, error) {
+		if success && h.blk != nil && h.idx >= 0 && h.idx < len(h.blk.Txs) {
+			t := h.blk.Txs[h.idx]
+			for _, o := range h.Observers {
+				h.safe(func() { o.PostTx(obsCtx(ctx), t) })
+			}
+		}
+		return ctx, nil
+	})
+}
+
+func (h *TxHooks) safe(f func()) {
+	defer func() {
+		if r := recover(); r != nil {
+			h.sim.Harness("tx observer panicked: %v", r)
+		}
+	}()
+	f()
+}
